@@ -66,6 +66,9 @@ def cases(shard, tier):
         if shard['src'] == 'inline' and (mapping != 'identity' or perm != 'same' or extra):
             continue
         yield dict(shard, frm=f, to=t, chunk=chunk, mapping=mapping, perm=perm, extra=extra, bo=bo)
+        if shard['src'] == 'dict' and mapping == 'identity' and perm == 'same' and not extra and bo == '<':
+            # the channels were created with placeholder arrays; the real data come with the dict given to write()
+            yield dict(shard, frm=f, to=t, chunk=chunk, mapping=mapping, perm=perm, extra=extra, bo=bo, placeholder=True)
         if (f or t is not None) and chunk in (None, 2) and not extra and perm == 'same' and bo == '<':
             # the same objects were written before with the full window
             yield dict(shard, frm=f, to=t, chunk=chunk, mapping=mapping, perm=perm, extra=extra, bo=bo, earlier=True)
@@ -174,6 +177,8 @@ def make_spec(c, reference=False):
                 kw['dataset_name'] = ds
             if c['src'] == 'inline':
                 kw['data'] = arr
+            elif c.get('placeholder'):
+                kw['data'] = S.arr_spec(dt, [rows] if w is None else [rows, w], [0] * (rows * (w or 1)))
             # the source holds data set <name> with this channel's pattern; with the swapped mapping the channel reads
             # the OTHER data set (the reference gets the patterns crosswise)
             data.append((name if c['mapping'] == 'swapped' else ds, arr))
